@@ -191,7 +191,8 @@ def check(ctx):
                         t_, f_ = bool_edges(b, i)
                         neg = "unop:Not" in sl.via
                         est.append((i, f_ if neg else t_))
-    for c in stores + writes:
+    from .request_model import request_traces as _rt1
+    for c in ([] if _rt1(prog) is not None else stores + writes):          # decided by value in R3 (refused-download scenarios write nothing)
         if ensures_key_match(prog, (c.res or c.fn) + "::{closure#0}"):
             ctx.ok(R2, "%s establishes the key match itself before writing" % c.name.rsplit("::", 1)[1])
             continue
